@@ -4,7 +4,7 @@
     their behaviour on truncated bitstreams is evaluated exhaustively (every
     prefix of every generated file) by harness/c17 on the real code. *)
 From Coq Require Import List ZArith.
-From Webp Require Import Base.Res Riff.ParserModel Riff.FeaturesModel Riff.PrefixProofs.
+From Webp Require Import Base.Res Base.Bytes Riff.ParserModel Riff.FeaturesModel Riff.PrefixProofs Riff.ParserSafety.
 Import ListNotations.
 Open Scope Z_scope.
 
@@ -51,6 +51,14 @@ Theorem C17_decode_prefix : forall (Pix : Type) (lossy_dec lossless_dec : list Z
   decode_bytes lossy_dec lossless_dec alpha_dec true p = Ok img.
 Proof. exact decode_prefix. Qed.
 Print Assumptions C17_decode_prefix.
+
+(** On every byte string (hence on every prefix of every file) the parser model
+    returns a value or an error class: no slice / index expression of parser.go is
+    ever out of range, and the chunk loops terminate within their fuel. *)
+Theorem C17_parser_total : forall fx data, bytes_ok data ->
+  parse_ex fx data <> Panic /\ parse_ex fx data <> Err EOutOfFuel.
+Proof. exact parse_ex_safe. Qed.
+Print Assumptions C17_parser_total.
 
 (** Pinned tree (parser before commit 86109c7, [pinned_*] definitions): the
     statement is false (finding, repaired). *)
